@@ -28,8 +28,8 @@ FLOORS = {
               'kind:number-beyond': 60, 'kind:number-below': 60, 'kind:text': 20, 'kind:logical': 10,
               'kind:error': 10, 'kind:number-to-text': 30, 'kind:text-to-number': 10, 'not_implemented_cases': 30,
               'exception_cases': 30, 'other_reported_cells_checked': 100, 'tol:None': 100, 'tol:0.001': 100,
-              'outputs:chosen': 100, 'outputs:all': 100, 'outputs:sheet': 30, 'big_workbook_validations': 9, 'second_validate_calcs_on_the_same_compiler': 20, 'validate_calcs_asked_to_raise_first': 50, 'unevaluable_cell_below_chosen_outputs': 30, 'unevaluable_cell_below_the_formulas_of_another_sheet': 10, 'prelude:noop-write': 40, 'prelude:read-input': 40, 'prelude:list-formula-cells': 40, 'real_book_validations': 25,
-              'workbooks_with_iterative_calculation_on': 30, 'pristine_process_workbooks': 16, 'two_unevaluable_cells_cases': 30},
+              'outputs:chosen': 40, 'outputs:all': 40, 'outputs:sheet': 10, 'big_workbook_validations': 9, 'second_validate_calcs_on_the_same_compiler': 6, 'validate_calcs_asked_to_raise_first': 15, 'unevaluable_cell_below_chosen_outputs': 10, 'unevaluable_cell_below_the_formulas_of_another_sheet': 3, 'prelude:noop-write': 40, 'prelude:read-input': 40, 'prelude:list-formula-cells': 40, 'real_book_validations': 6,
+              'workbooks_with_iterative_calculation_on': 10, 'pristine_process_workbooks': 16, 'two_unevaluable_cells_cases': 12},
     'thorough': {'validate_calls': 12000, 'alterations': 8000, 'kind:logical': 300, 'kind:error': 300,
                  'not_implemented_cases': 600, 'exception_cases': 600},
 }
